@@ -152,6 +152,8 @@ type c13Parser struct {
 	i     int
 	store string // directory outside the layout holding the targets of the symbolic links
 	n     int
+	revs  bool // every file gets a revision statement of its own (several files of one module can be loaded)
+	r     int
 }
 
 // entries parses "(" entry { "," entry } ")" or "()" and creates them below dir; rel = hex components so far.
@@ -183,6 +185,10 @@ func (p *c13Parser) entries(dir string, rel []string) {
 				mod = name[:k]
 			}
 			txt := fmt.Sprintf("module %s { namespace \"urn:x\"; prefix p; description \"%s\"; }", mod, strings.Join(r, "/"))
+			if p.revs {
+				p.r++
+				txt = fmt.Sprintf("module %s { namespace \"urn:x\"; prefix p; description \"%s\"; revision %04d-01-01; }", mod, strings.Join(r, "/"), 1000+p.r)
+			}
 			if kind == 'L' {
 				p.n++
 				target := filepath.Join(p.store, fmt.Sprintf("t%d", p.n))
@@ -220,6 +226,80 @@ func c13Comps(root, s string) string {
 	return d
 }
 
+// c13PathElem: comp/comp/... (hex, below the temp root: an absolute element), "." (the root), or
+// r<spelling hex>:<comps> for an element spelled relative to the current directory, used as spelled; a trailing "+"
+// appends "/...".
+func c13PathElem(root, e string) string {
+	dots := strings.HasSuffix(e, "+")
+	e = strings.TrimSuffix(e, "+")
+	var d string
+	if strings.HasPrefix(e, "r") {
+		d = string(unhex(e[1:strings.Index(e, ":")]))
+	} else {
+		d = c13Comps(root, e)
+	}
+	if dots {
+		d += "/..."
+	}
+	return d
+}
+
+// readseq <tree> <cwd> <path> <name>,<name>,...: the path is set with AddPath, then Read(name) for each name in turn
+// on one Modules -> per step the root-relative components of the file whose module arrived, "-" when Read failed
+func c13ReadSeq(toks []string) string {
+	if len(toks) != 4 {
+		return "bad-case"
+	}
+	root, err := os.MkdirTemp("", "c13rs")
+	if err != nil {
+		panic(err)
+	}
+	defer os.RemoveAll(root)
+	store, err := os.MkdirTemp("", "c13st")
+	if err != nil {
+		panic(err)
+	}
+	defer os.RemoveAll(store)
+	(&c13Parser{s: toks[0], store: store, revs: true}).entries(root, nil)
+	ms := yang.NewModules()
+	if toks[2] != "-" {
+		for _, e := range strings.Split(toks[2], ";") {
+			ms.AddPath(c13PathElem(root, e))
+		}
+	}
+	old, err := os.Getwd()
+	if err != nil {
+		panic(err)
+	}
+	if err := os.Chdir(c13Comps(root, toks[1])); err != nil {
+		panic(err)
+	}
+	defer os.Chdir(old)
+	seen := map[string]bool{}
+	var out []string
+	for _, n := range strings.Split(toks[3], ",") {
+		rerr := ms.Read(string(unhex(n)))
+		var got []string
+		for _, m := range ms.Modules {
+			d := c13Desc(m)
+			if !seen[d] {
+				seen[d] = true
+				got = append(got, d)
+			}
+		}
+		sort.Strings(got)
+		switch {
+		case len(got) == 0 && rerr != nil:
+			out = append(out, "-")
+		case len(got) == 1 && rerr == nil:
+			out = append(out, got[0])
+		default:
+			out = append(out, fmt.Sprintf("odd:err=%v:loaded=%s", rerr != nil, strings.Join(got, "+")))
+		}
+	}
+	return strings.Join(out, ",")
+}
+
 func c13FindFile(toks []string) string {
 	if len(toks) != 4 {
 		return "bad-case"
@@ -239,12 +319,7 @@ func c13FindFile(toks []string) string {
 	ms := yang.NewModules()
 	if toks[2] != "-" {
 		for _, e := range strings.Split(toks[2], ";") {
-			dots := strings.HasSuffix(e, "+")
-			d := c13Comps(root, strings.TrimSuffix(e, "+"))
-			if dots {
-				d += "/..."
-			}
-			ms.Path = append(ms.Path, d)
+			ms.Path = append(ms.Path, c13PathElem(root, e))
 		}
 	}
 	old, err := os.Getwd()
@@ -298,12 +373,7 @@ func c13FindTwice(toks []string) string {
 	ms := yang.NewModules()
 	if toks[3] != "-" {
 		for _, e := range strings.Split(toks[3], ";") {
-			dots := strings.HasSuffix(e, "+")
-			d := c13Comps(root, strings.TrimSuffix(e, "+"))
-			if dots {
-				d += "/..."
-			}
-			ms.Path = append(ms.Path, d)
+			ms.Path = append(ms.Path, c13PathElem(root, e))
 		}
 	}
 	old, err := os.Getwd()
@@ -323,6 +393,7 @@ func c13FindTwice(toks []string) string {
 }
 
 func init() {
+	handlers["readseq"] = c13ReadSeq
 	handlers["findtwice"] = c13FindTwice
 	handlers["registry"] = c13Registry
 	handlers["findfile"] = c13FindFile
